@@ -25,7 +25,7 @@ MANIFEST_ENTRY = dict(
 
 def scenarios(ctx: Ctx):
     rng = random.Random(ctx.seed * 7919 + 7)
-    n = 700 if ctx.quick else 12000
+    n = 400 if ctx.quick else 12000
     topos = rtcheck.topologies(rng, ctx.quick)
     scs = []
     lib = ['A', 'B', 'N', 'D', 'W']
@@ -47,8 +47,8 @@ def run(ctx: Ctx) -> Outcome:
     if ctx.replay:
         return rtcheck.replay_outcome('C07', ctx)
     scs = scenarios(ctx)
-    model_cov, extra_scs, notes = rtmodel.model_check_and_generate('C07', ctx)
-    out = rtcheck.validate('C07', scs + extra_scs, ctx, extra_cov=model_cov)
+    model_cov, guided, notes = rtmodel.model_check_and_generate('C07', ctx)
+    out = rtcheck.validate('C07', scs, ctx, extra_traces=guided, extra_cov=model_cov)
     out.notes += notes
     out.assumptions = ['per-channel FIFO delivery; a select returns one ready connection at a time (every order is realisable by timing)',
                        'task bodies are deterministic programs over submit/map/next/await; values are task ids']
